@@ -1,0 +1,26 @@
+//go:build verif
+
+// Package verifhook provides named instrumentation points for the verification harness.
+// With the "verif" build tag a test may install a handler that is called at every point;
+// the handler may block (a scheduler gate) or panic (fault injection). No handler: no-op.
+package verifhook
+
+import "sync/atomic"
+
+var handler atomic.Pointer[func(name, key string)]
+
+// Point marks a place where the verification harness may pause or fail the calling goroutine.
+func Point(name, key string) {
+	if h := handler.Load(); h != nil {
+		(*h)(name, key)
+	}
+}
+
+// Set installs (or, with nil, removes) the handler.
+func Set(f func(name, key string)) {
+	if f == nil {
+		handler.Store(nil)
+		return
+	}
+	handler.Store(&f)
+}
